@@ -103,6 +103,10 @@ func topKey(p string) (section, key string) {
 
 func c07(c *Ctx) {
 	xc := c.P.TypesPkg("internal/xcrd")
+	// The managed-fields upgrade is part of the server-side mechanism (an anchor of the
+	// property): until it succeeded the legacy manager owns the claim-derived fields and a
+	// field removed from the claim stays on the XR. Its failed steps fall under R7.0.
+	c.method(pkgClaim, "PatchingManagedFieldsUpgrader", "Upgrade")
 	c.R.Rule("R7.1", "the filter tables cover the machinery (derived from the accessors crossplane calls)", 20,
 		"a machinery field missing from a table is copied across as if it were a user field (or a user field is dropped)")
 	var claimKeys, xrKeys, statusKeys, propagate []string
